@@ -73,6 +73,74 @@ func (w *W) StrMap(tag byte, m map[string]string) {
 	}
 }
 
+// BytesMap writes map<string, vector<byte>> (a TUP attribute set).
+func (w *W) BytesMap(tag byte, m map[string][]byte) {
+	w.head(tag, 8)
+	w.Int(0, int64(len(m)))
+	ks := make([]string, 0, len(m))
+	for k := range m {
+		ks = append(ks, k)
+	}
+	sort.Strings(ks)
+	for _, k := range ks {
+		w.Str(0, k)
+		w.Bytes(1, m[k])
+	}
+}
+
+// ReadBytesMap decodes a buffer holding one map<string, vector<byte>> at tag 0.
+func ReadBytesMap(b []byte) (map[string][]byte, error) {
+	r := &R{B: b}
+	_, ty, err := r.head()
+	if err != nil {
+		return nil, err
+	}
+	if ty != 8 {
+		return nil, fmt.Errorf("tnet: attribute set is wire type %d", ty)
+	}
+	_, t2, err := r.head()
+	if err != nil {
+		return nil, err
+	}
+	n, err := r.intBody(t2)
+	if err != nil {
+		return nil, err
+	}
+	out := map[string][]byte{}
+	for i := int64(0); i < n; i++ {
+		_, kt, err := r.head()
+		if err != nil {
+			return nil, err
+		}
+		k, err := r.strBody(kt)
+		if err != nil {
+			return nil, err
+		}
+		f, err := r.field()
+		if err != nil {
+			return nil, err
+		}
+		if f.Type != 13 {
+			return nil, fmt.Errorf("tnet: attribute value is wire type %d", f.Type)
+		}
+		out[k] = f.Raw
+	}
+	return out, nil
+}
+
+// ReadStringField decodes a buffer holding one string field and returns it.
+func ReadStringField(b []byte) (tag byte, s string, err error) {
+	r := &R{B: b}
+	f, err := r.field()
+	if err != nil {
+		return 0, "", err
+	}
+	if f.Type != 6 && f.Type != 7 {
+		return f.Tag, "", fmt.Errorf("tnet: wire type %d is not a string", f.Type)
+	}
+	return f.Tag, f.Str, nil
+}
+
 // ---- reader -----------------------------------------------------------------
 
 type R struct {
